@@ -18,6 +18,11 @@ CLAIMED = {
         note="Templates: main -> <= 3-4 branches mid -> leaf with duplicates, shared non-leaf calls, failing/caught leaves, a leaf demanding the whole limit, optional catch_all / unknown-executor branch. Real thread/process executors and prov=False jobs are outside.",
         design="3/C08-C09-C06-C07-C12",
         technique=TECH + "; scheduler run natively under a controlled executor/queue with symbolic limits and solver-chosen schedules"),
+    "C07": dict(
+        text="%sEach run is compared with a reference run of the same program (fresh backend, strictly serial depth-first completions, ample resources): same returned value and the same sets of call-node, argument, value and handle hashes; a second template passes one Handle to parallel task chains under a limit." % LAB,
+        note="Two listed known findings are assumed away exactly (duplicate *failing* calls; values containing one shared result object several times) and witnessed; one defect (handle forked again after waiting for limits) was fixed.",
+        design="3/C08-C09-C06-C07-C12",
+        technique=TECH + "; differential against a serial reference run; scheduler run natively with symbolic limits and solver-chosen schedules"),
     "C08": dict(
         text="%sAsserted at every submission, event and at the end: units held by submitted-and-unfinished jobs <= limit (1 if unconfigured), the scheduler's account never below what is in flight, zero when the run ends." % LAB,
         note="Same templates as C06; limit >= 1 symbolic, demand 1 <= count <= limit symbolic, list and dict demand forms, unconfigured limit.",
@@ -28,6 +33,11 @@ CLAIMED = {
         note="Same templates as C06/C08; every task function terminates, demand <= limit.",
         design="3/C08-C09-C06-C07-C12",
         technique=TECH + "; scheduler run natively under a controlled executor/queue with symbolic limits and solver-chosen schedules"),
+    "C12": dict(
+        text="%sAsserted: an uncaught failure makes run raise the same exception type and message, the failing job and each ancestor are recorded FAILED with an ErrorValue, a second execution submits the failed call again; plus solver-chosen histories of executions of one call whose body succeeds/fails with the cache on/off, and the real _get_cache on solver-chosen (result kind, cache type) pairs." % LAB,
+        note="Errors: an ordinary exception and one carrying an unpicklable attribute; <= 3-4 executions per history.",
+        design="3/C08-C09-C06-C07-C12",
+        technique=TECH + "; scheduler run natively with symbolic limits and solver-chosen schedules; execution histories as solver choice variables"),
     "C13": dict(
         text="Bounded model checking by symbolic execution: the real Promise class is run on every operation sequence of "
              "the stated length (operation choice = solver variables) and compared with a reference model of the "
@@ -89,6 +99,11 @@ CLAIMED = {
              "that is current through an update-created tag duplicates it) is tolerated exactly and witnessed.",
         design="3/C24",
         technique=TECH + "; command histories as solver choice variables, executed natively on the real backend; model oracle"),
+    "C25": dict(
+        text="Every history of handle operations up to the bound (fork, apply call, merge, rollback, rollback through the scheduler with the handle direct / nested in arguments, re-derivation with the same or a fresh object; operands solver-chosen) is run on the real advance_handle / rollback_handle / is_valid_handle of the in-memory SQLite backend and compared after every step with the lineage model; finally the real _get_cache must replay a cached result containing a state iff the model says the state is valid.",
+        note="<= 4 (quick) / 5 (thorough) operations on one handle name.",
+        design="3/C25",
+        technique=TECH + "; operation histories as solver choice variables, executed natively on the real backend; lineage-model oracle"),
     "C26": dict(
         text="merge_dicts, get_context_value, Job.get_context on chains of real Job objects, Task.update_context and the root "
              "merge of Scheduler.run are executed on contexts drawn by solver variables from a menu of 11 value shapes; the "
